@@ -246,10 +246,20 @@ def cli_tolerance_cases(ctx, n):
             ctx.failures.append(Failure("C01/cli-run-failed", "a valid command line with several adapter specifications fails", shown, res.stderr[-300:], 0))
             continue
         rows = [l.split("\t") for l in clirun.text_of(res.files.get("info.txt", b"")).splitlines()]
-        bad = [r for r in rows if len(r) > 7 and r[1] != "-1" and r[7] == "second"]
-        if bad:
-            ctx.failures.append(Failure("C01/errors", "a match of an adapter is reported beyond the global tolerance / below the global minimum overlap (no parameter of its own)",
-                                        shown, bad[0][:8], "no match of 'second'"))
+        by_name = dict(reads)
+        for r in rows:
+            if len(r) <= 7 or r[1] == "-1" or r[7] != "second":
+                continue
+            # judge the reported match of `second` by the *global* parameters (a chance overlap at the end of the read may be a genuine match)
+            start, end = int(r[2]), int(r[3])
+            rd = by_name[r[0].split()[0]]
+            mid = rd[start:end]
+            part = ad[: len(mid)] if end == len(rd) and len(mid) < len(ad) else ad
+            mism = sum(1 for x, y in zip(mid, part) if x != y) if len(mid) == len(part) else 99
+            if len(mid) < O or mism > int(0.1 * len(mid)) or mism == 99:
+                ctx.failures.append(Failure("C01/errors", "a match of an adapter without parameters of its own is reported beyond the global tolerance / below the global "
+                                            "minimum overlap", shown, r[:8], dict(aligned=len(mid), mismatches=mism, global_e=0.1, global_O=O)))
+                break
 
 
 def run(ctx):
